@@ -848,6 +848,18 @@ def run_history(ctx, spec, length, r, reqs, pending):
                  per_channel=op.get('per_channel'))
         if op['op'] == 'copy' and err is not None:
             ctx.fail(case, {'what': f'copy() refused: {type(err).__name__}: {err}'[:300]}, site='copy')
+        # ---- an index that selects at least one voxel per axis (CPython range) within the documented bounds is accepted
+        if op['op'] == 'getitem':
+            idx = op['index']
+            items = idx['v'] if idx['t'] == 'tuple' else [idx]
+            sizes = [_track_item(it, v.spatial_shape[d]) for d, it in enumerate(items[:3])]
+            if len(items) <= 3 and all(x is not None for x in sizes):
+                want_shape = sizes + list(v.spatial_shape[len(sizes):])
+                if err is not None:
+                    ctx.fail(case, {'what': f'a valid non-empty index was refused: {type(err).__name__}: {err}'[:300]}, site='getitem')
+                elif list(v2.spatial_shape) != want_shape:
+                    ctx.fail(case, {'what': 'result of indexing does not have the shape of the selection',
+                                    'got': list(v2.spatial_shape), 'want': want_shape}, site='getitem')
         # ---- geometry twin is refused exactly when the volume is (spatial ops)
         spatial = op['op'] not in ('with_array', 'get_channel', 'permute_channels', 'permute_channels_by_id')
         if spatial and (err is None) != (gerr is None):
@@ -914,6 +926,8 @@ def run_history(ctx, spec, length, r, reqs, pending):
         model_ops.append(mop)
         impl_obs.append({'err': _err_kind(err)} if err is not None else {'ok': observe(v2)})
         impl_obs[-1]['case'] = case
+        if err is None and spatial and gerr is None:
+            impl_obs[-1]['geom'] = observe_geom(g2)
     if _snapshot(v0) != snap0:
         ctx.fail({'hist': spec['idx'], 'step': 'end'}, {'what': 'the original volume changed during the history'}, site='original')
     # model request
@@ -1000,6 +1014,13 @@ def compare_history(ctx, pend, ans):
                 if not _close(io['affine'][i][j], mo['affine'][i][j], pend['exact']):
                     ctx.disagree('L0', case, io['affine'], mo['affine'], 'affine')
                     return
+        if 'geom' in obs:
+            # the VolumeGeometry twin against the model (theorem history_geometry_twin: the model's volume geometry)
+            gs = obs['geom']
+            if gs['shape'] != mo['shape'][:3] or any(not _close(gs['affine'][i][j], mo['affine'][i][j], pend['exact'])
+                                                     for i in range(3) for j in range(4)):
+                ctx.disagree('L0', case, gs, {'shape': mo['shape'][:3], 'affine': mo['affine']}, 'geometry twin')
+                return
         ma = mo['arr']
         if len(ma) != len(io['arr']) or any(not _close(str(x), str(y), exact_vals) for x, y in zip(io['arr'], ma)):
             k = next((k for k, (x, y) in enumerate(zip(io['arr'], ma)) if not _close(str(x), str(y), exact_vals)), None)
